@@ -25,7 +25,7 @@ def obligations(tier):
                  defines=['JLS_VERIF_SIGNAL_COUNT=3', 'JLS_VERIF_SOURCE_COUNT=2', 'JLS_VERIF_FSR_BUFFER_U64=2', 'JLS_VERIF_BUF_DEFAULT_SIZE=64', 'JLS_VERIF_BUF_STRING_SIZE=16'],
                  unwind=8, typed_calloc=True, timeout=600, backend=PORTFOLIO,
                  desc='real jls_rd_open/jls_rd_close over contract stubs: the repair branch (append mode, truncate, rewrite, pointer repair, summary rebuild, END) is entered iff the '
-                      'last valid chunk is not END; symbolic last tag, with and without FSR data (the first-sample-id scan overwrites chunk_cur like the real one)',
+                      'last valid chunk is not END, and then for every track of the signal (FSR, annotation, UTC); symbolic last tag, with and without FSR data (the first-sample-id scan overwrites chunk_cur like the real one)',
                  bound='one FSR signal; every step succeeds',
                  assumes=['contract stubs for everything jls_rd_open calls (core.c, raw.c, track.c, wr_fsr.c not linked)']))
     cases = [('annotation', 'JLS_TRACK_TYPE_ANNOTATION', 3, 'CUT', 'CUT'), ('utc', 'JLS_TRACK_TYPE_UTC', 2, 'CUT', 'CUT'), ('annotation', 'JLS_TRACK_TYPE_ANNOTATION', 2, '0', 'CUT')]
